@@ -371,7 +371,7 @@ MUTANTS = [
      "edits": [
          {"file": K, "old": "    for isamp in range(nsamps - maxdelay):\n        tj = (isamp + index) * tsamp",
           "new": "    for isamp in prange(nsamps - maxdelay):\n        tj = (isamp + index) * tsamp"},
-         {"file": K, "old": "        \"void(f4[:], f4[:], i4[:], i4[:], i4, f4, f4, f4, i4, i4, i4, i4, i4, i4, i4)\",\n    ],\n    cache=True,\n)",
+         {"file": K, "old": "        \"void(f4[:], f4[:], i4[:], i4[:], i4, f8, f8, f8, i4, i4, i4, i4, i4, i4, i4)\",\n    ],\n    cache=True,\n)",
           "new": "        \"void(f4[:], f4[:], i4[:], i4[:], i4, f4, f4, f4, i4, i4, i4, i4, i4, i4, i4)\",\n    ],\n    cache=True,\n    parallel=True,\n)"}]},
     {"id": "c19-zerodm-stride-off", "file": K, "expect": "C19.O2",
      "old": "            pos = nchans * isamp + ichan\n            result =",
